@@ -346,6 +346,10 @@ def stepT (st : St) (op : List String) (impl : Option (List String)) : St × Str
     | .fuel => finishT st "diverges" t (judgeT impl false none2)
     | .exc => finishT st "exc:bpp" t (judgeT impl false none2)
     | .ub => finishT st "ub" t (judgeT impl false none2)
+  | ["t.createNodeFromNode", o] => mutr (t.lift (t.g.createNodeFromNode (nat o))) toString
+  | ["t.createNodeOnEdge", e] => mutr (t.lift (t.g.createNodeOnEdge (nat e))) toString
+  | ["t.createNodeFromEdge", e] => mutr (t.lift (t.g.createNodeFromEdge (nat e))) toString
+  | ["t.orientate"] => mutr t.orientate okS
   | ["t.setOutGroup", n] =>
     match t.setOutGroup (nat n) with
     | .ok r => finishT st (gres okS r.1) r.2 (judgeT impl false none2)
